@@ -315,7 +315,7 @@ def t_expand(spec: GraphSpec):
     for ti in targets:
         for shape_name, mk in shapes.items():
             for ns_name, leafnames in LEAF_NAMESETS.items():
-                for maps in ("explicit", "default"):
+                for maps in ("explicit", "default", "explicit-partial"):
                     tag = f"{spec.tag}/expand n{ti} {shape_name}/{ns_name}/{maps}"
                     g, objs = spec.build()
                     target = objs[ti]
@@ -344,6 +344,21 @@ def t_expand(spec: GraphSpec):
                         eff_out = {o: o for o in t_outputs}
                         if any(o not in leaf_names for o in t_outputs):
                             continue
+                    elif maps == "explicit-partial":
+                        # an explicit map that names only the first source; the second source is NOT mapped but carries
+                        # the name of one of the expanded node's inputs -- it must be left as it is
+                        if len(src_names) < 2 or not t_inputs:
+                            continue
+                        clash = t_inputs[-1]
+                        if any(n.name == clash for n in sub.nodes()):
+                            continue
+                        for n in sub.nodes():
+                            if n.name == src_names[1]:
+                                n.name = clash
+                        src_names = [src_names[0], clash]
+                        input_map = {src_names[0]: t_inputs[0]}
+                        output_map = {o: leaf_names[k % len(leaf_names)] for k, o in enumerate(t_outputs)}
+                        eff_in, eff_out = input_map, output_map
                     else:
                         input_map = {s: t_inputs[k] for k, s in enumerate(src_names) if k < len(t_inputs)}
                         output_map = {o: leaf_names[k % len(leaf_names)] for k, o in enumerate(t_outputs)}
